@@ -33,7 +33,9 @@ FILES = ["a.py", "b.js", "c.ts", "d.java", "e.c", "f.cpp", "g.cs", ".h.py", "n.t
          # names whose language does not follow from "the usual extension": secondary extensions and whole-name rules
          "h.h", "i.hpp", "j.cc", "k.mjs", "l.pyi", "BUILD", "SConstruct", "LICENSE", "Makefile",
          # legitimate names with characters that option / config parsing might treat as separators
-         "p,q.py", "sp ace.js"]
+         "p,q.py", "sp ace.js",
+         # the same stem under two languages side by side (a compiled file next to its source)
+         "b.ts"]
 LANG_OF_EXT = {"py": "Python", "pyi": "Python", "js": "JavaScript", "mjs": "JavaScript", "ts": "TypeScript", "java": "Java", "c": "C", "h": "C",
                "cpp": "C++", "hpp": "C++", "cc": "C++", "cs": "C#"}
 LANG_OF_NAME = {"BUILD": "Python", "SConstruct": "Python"}
@@ -78,7 +80,9 @@ PATTERNS = ["pkg", "a.py", "src/", "pkg/", "*.js", "*.py", "src/pkg", "src/a.py"
             # root-anchored single component: only the top-level entry of that name
             "/pkg", "/a.py",
             # bare names containing a comma / a blank (one pattern each, not a list)
-            "p,q.py", "sp ace.js"]
+            "p,q.py", "sp ace.js",
+         # the same stem under two languages side by side (a compiled file next to its source)
+         "b.ts"]
 # ordered lists with a negation (last matching pattern wins); only combinations on which git and per-path matching agree
 NEGATION_LISTS = [["*.js", "!b.js"], ["pkg", "!src/pkg"], ["*.py", "!src/*.py"], ["src/*", "!src/a.py"]]
 
@@ -226,9 +230,9 @@ def run_scan(base: Path, spelling, patterns, source):
     seen = []
     real = Scanner._analyze_file
 
-    def wrapped(path, rel_path, checksum, lexer):
+    def wrapped(path, rel_path, *a, **kw):
         seen.append(str(rel_path))
-        return real(path, rel_path, checksum, lexer)
+        return real(path, rel_path, *a, **kw)
 
     harness.reset_globals()
     Scanner._analyze_file = wrapped
